@@ -285,6 +285,10 @@ def subslice(rng, plate, sel, idx, shape):
     slicer.  -> (slicer, index list, shape, description) or None."""
     import numpy
     parent = plate[sel]
+    if rng.random() < 0.35:
+        # the parent is looked at before it is sliced (observers change nothing: the sub-slice knows its own shape and size)
+        _ = (parent.shape, parent.size)
+        M.bucket('subslice/parent_looked_at_first')
     if len(shape) == 1:
         n = shape[0]
         if n < 2:
@@ -308,6 +312,8 @@ def subslice(rng, plate, sel, idx, shape):
         r = rng.random()
         if r < 0.3:
             k = rng.randrange(n)
+            if rng.random() < 0.2:
+                return k - n, slice(k, k + 1)          # (counted from the end)
             return k, slice(k, k + 1)
         a = rng.randrange(0, n)
         b = rng.randrange(a + 1, n + 1)
@@ -316,6 +322,13 @@ def subslice(rng, plate, sel, idx, shape):
             a, b, st = rng.choice([0, 0, 1]), n, rng.choice([2, 2, 3])        # a stepped selection over the whole parent axis
         a_ = None if (a == 0 and rng.random() < 0.5) else a
         b_ = None if (b == n and rng.random() < 0.5) else b
+        if rng.random() < 0.2:
+            # the same bounds counted from the end of the selection (python's negative indices)
+            if isinstance(a_, int) and a_ > 0:
+                a_ = a_ - n
+            if isinstance(b_, int) and 0 < b_ < n:
+                b_ = b_ - n
+            M.bucket('subslice/negative_index')
         return slice(a_, b_, st), slice(a_, b_, st)
     ri, rs = axis(h)
     ci, cs = axis(w)
